@@ -36,9 +36,8 @@ class Reach:
                 obj = obj.__func__
             elif isinstance(obj, property):
                 obj = obj.fget
-            elif hasattr(obj, "__wrapped__"):
-                # keep the wrapper itself: it is what runs first
-                break
+            elif hasattr(obj, "__wrapped__") and not hasattr(obj, "__code__"):
+                obj = obj.__wrapped__  # e.g. functools.cache wrapper (C object)
             else:
                 break
         return getattr(obj, "__code__", None)
